@@ -149,6 +149,15 @@ def instantiate(I, cls, args, kwargs, fr, site):
     if getattr(E, "auto_opaque", False) and not qn.startswith("paramiko.") and not E.contract_of(qn + ".__init__"):
         E.trusted_used.add("auto-opaque library class " + qn)
         return VOpaque("lib:" + qn.rsplit(".", 1)[-1], st.fresh_int("libobj"))
+    if "builtins.dict" in E.mro(qn) and qn != "builtins.dict":
+        # dict subclass (SSHConfigDict): a dict value; the subclass's extra methods are not modelled
+        r = st.alloc(qn, "dict")
+        st.heap[r.ref].data = {}
+        if args:
+            src = args[0]
+            if isinstance(src, VRef) and st.heap[src.ref].kind == "dict":
+                st.heap[r.ref].data = dict(st.heap[src.ref].data)
+        return r
     if qn in E.src.classes or E.class_info(qn):
         r = st.alloc(qn)
         init = E.find_attr(qn, "__init__")
@@ -628,6 +637,31 @@ def _list(I, self, args, kw, fr, site):
     r = I.st.alloc("list", "list")
     I.st.heap[r.ref].data = items
     return r
+
+
+@intrinsic("builtins.set")
+def _set(I, self, args, kw, fr, site):
+    """set modelled as a duplicate-free list (iteration order unspecified in Python; only membership is used)"""
+    r = I.st.alloc("list", "list")
+    I.st.heap[r.ref].data = []
+    if args:
+        _set_update(I, r, [args[0]], {}, fr, site)
+    return r
+
+
+@intrinsic("list.update", "list.add")
+def _set_update(I, self, args, kw, fr, site):
+    o = I.st.heap[self.ref]
+    items = I.iter_concrete(args[0]) if site.find("call(add)") < 0 else [args[0]]
+    for x in items:
+        dup = False
+        for y in o.data:
+            if I.st.decide(I.equal(x, y)):
+                dup = True
+                break
+        if not dup:
+            o.data.append(x)
+    return NONE
 
 
 @intrinsic("builtins.dict")
